@@ -1,7 +1,17 @@
-// instantiation TU for cxx2coq (C07): the decision logic of DataIndexes::MultiHash / UniqueHash
+// C07 T-gen instantiation: DataIndexes<static column list, DataTraits> (its nested UniqueHash / MultiHash classes and the
+// two-phase AddRaw / RemoveRaw / UpdateRaw), plus one use of every member TEMPLATE the generators read
 #include "momo/DataTable.h"
-namespace c07inst {
-struct S { int k[3]; int pad; };
-typedef momo::DataColumnListStatic<S, momo::DataColumnInfo<S>, momo::MemManagerDefault> CL;
-}
+namespace c07inst { struct S { int k[3]; int pad; };
+typedef momo::DataColumnListStatic<S, momo::DataColumnInfo<S>, momo::MemManagerDefault> CL; }
 template class momo::internal::DataIndexes<c07inst::CL, momo::DataTraits>;
+namespace c07inst {
+typedef momo::internal::DataIndexes<CL, momo::DataTraits> DI;
+struct Assigner { void operator()(S*, size_t) const {} };
+inline void use(DI& di, S* raw, const int& item)
+{
+	di.UpdateRaw(raw, size_t(0), item, Assigner());
+	std::array<size_t, 2> so{{0, 4}};
+	(void)di.GetFitUniqueHashIndex(so);
+	(void)di.GetFitMultiHashIndex(so);
+}
+}
